@@ -96,6 +96,26 @@ def run(chk):
     par = common.chunked_parallel(pair.model, ["parse %s %d %s %s" % (c[0].cols_text, 100000, f[0], f[1]) for c, f in zip(cases, files)], workers=16, chunk=8)
     impl = common.chunked_parallel(pair.impl, ["zoo-read %s %s" % (c[0].name, f[0]) for c, f in zip(cases, files)], workers=16, chunk=8)
     model = common.chunked_parallel(pair.model, ["read %s %s %s" % (c[0].cols_text, f[0], f[1]) for c, f in zip(cases, files)], workers=16, chunk=8)
+    # merged files: the row groups of two foreign files of the same struct, written with DIFFERENT codec assignments,
+    # under one footer (what parquet-tools merge does): the codec is a property of each column chunk, not of a column
+    merged = []
+    byzoo = {}
+    for k, ((z, codecs, flags, seed, rgs), f) in enumerate(zip(cases, files)):
+        if len(f[0]) < 60000 and "p" not in flags.replace("x", ""):
+            byzoo.setdefault(z.name, []).append(k)
+    pairs_ = []
+    for name, ks in byzoo.items():
+        for a, b in zip(ks[::2], ks[1::2]):
+            if cases[a][1] != cases[b][1]:
+                pairs_.append((a, b))
+    pairs_ = pairs_[: (60 if thorough else 16)]
+    mres = common.chunked_parallel(pair.model, ["mergefiles %s %s" % (files[a][0], files[b][0]) for a, b in pairs_], workers=8, chunk=4)
+    for (a, b), r in zip(pairs_, mres):
+        if r.startswith("ok "):
+            tab = ",".join(t for t in (files[a][1], files[b][1]) if t != "-") or "-"
+            merged.append((a, b, r.split(" ")[1], tab))
+    m_impl = common.chunked_parallel(pair.impl, ["zoo-read %s %s" % (cases[a][0].name, f) for a, b, f, t in merged], workers=8, chunk=4)
+    m_model = common.chunked_parallel(pair.model, ["read %s %s %s" % (cases[a][0].cols_text, f, t) for a, b, f, t in merged], workers=8, chunk=4)
     # Lean compressors vs the external decoders (validates the foreign snappy / gzip streams)
     dops, dwant = [], []
     for (z, codecs, flags, seed, rgs), f in zip(cases, files):
@@ -112,6 +132,19 @@ def run(chk):
     for o, w, g in zip(dops, dwant, dres):
         if g != w:
             tie_breaks.append({"what": "Lean compressor output not decoded by the external library", "op": o[:200], "got": g[:100]})
+    for (a_, b_, f_, t_), gi, gm in zip(merged, m_impl, m_model):
+        z = cases[a_][0]
+        recs = [z.proj(r) for k in (a_, b_) for g in cases[k][4] for r in g]
+        want = "open=ok rows=%d nexts=%d err=ok recs=%s" % (len(recs), len(recs), ";".join(recs) or "-")
+        got = filelevel.strip_calls(gi)
+        o = "mergefiles of [%s] and [%s]" % (ops[a_][:1500], ops[b_][:1500])
+        if got != gm:
+            tie_breaks.append({"what": "reader model vs generated reader on a merged foreign file", "op": o[:400], "impl": got[:300], "model": gm[:300]})
+        if got != want:
+            prop_fail.append({"case": o, "key": {"zoo": z.name, "where": "merged", "outcome": got.split(" recs=")[0][:60], "padding": False},
+                              "clause": "records read from a merged file (row groups with different codecs per column) differ", "got": got[:600], "want": want[:600]})
+        else:
+            nontrivial.add(o)
     for (z, codecs, flags, seed, rgs), f, p, a, b, o in zip(cases, files, par, impl, model, ops):
         recs = [z.proj(r) for g in rgs for r in g]
         want = "open=ok rows=%d nexts=%d err=ok recs=%s" % (len(recs), len(recs), ";".join(recs) or "-")
@@ -141,8 +174,9 @@ def run(chk):
     cov.update({
         "obligations": pr["obligations"], "discharged": pr["discharged"], "axioms": pr["axioms"],
         "checker_cmd": "cd lean && lake build %s" % MODULE, "trusted_base": TRUSTED_BASE, "forbidden_constructs": pr["forbidden_constructs"],
-        "evaluations": len(cases), "distinct_nontrivial": len(nontrivial),
-        "rule": "files produced by the independent Lean writer PQ.specWrite under seeded random legal choices: run segmentation of every level stream (RLE runs of any length, bit-packed runs of any group count incl. > 63, multi-byte headers, padding values), independent page splits per column at record boundaries, per-column codec (snappy streams from the Lean encoder with random literal/copy segmentation, gzip containers with stored blocks), the deprecated file_offset of a column chunk pointing at its start, at 0 or just past it; statistics (complete, or min/max without the optional null_count) and optional/unknown thrift fields present or absent; 5 structs; non-trivial = distinct file read back correctly",
+        "merged_files": len(merged),
+        "evaluations": len(cases) + len(merged), "distinct_nontrivial": len(nontrivial),
+        "rule": "files produced by the independent Lean writer PQ.specWrite under seeded random legal choices: run segmentation of every level stream (RLE runs of any length, bit-packed runs of any group count incl. > 63, multi-byte headers, padding values), independent page splits per column at record boundaries, per-column codec, and merged files whose row groups use different codecs for the same column (snappy streams from the Lean encoder with random literal/copy segmentation, gzip containers with stored blocks), the deprecated file_offset of a column chunk pointing at its start, at 0 or just past it; statistics (complete, or min/max without the optional null_count) and optional/unknown thrift fields present or absent; 5 structs; non-trivial = distinct file read back correctly",
         "samples": [ops[0][:300], ops[len(ops) // 2][:300]],
         "input_distribution": dist,
         "tie": "reader model = generated reader on every foreign file; specWrite's files validated by PQ.parseFile; Lean snappy/gzip streams decoded by the external libraries",
